@@ -9,7 +9,7 @@ import json
 import os
 
 from report import AnalysisError, VERIF
-from pyfront import Repo, canon, attr_accesses, qualname
+from pyfront import Repo, canon, attr_accesses, qualname, enclosing_func, enclosing_class, set_parents
 from pyutil import rel
 from consteval import Ev, Unknown, Raised, _FALL
 import exprnf as X
@@ -39,7 +39,17 @@ EXPLANATION = (
     "with its parameters (e.g. a MAIO applied by list slicing that does not wrap for MAIO >= N). Arms that no input of the "
     "domain can take (assertions, defensive raises behind a bound the ranges guarantee) are excluded by interval evaluation of "
     "their conditions; a parameter kept as a private copy is recognised by folding the constructor. Every rule group is a stage: "
-    "a group that cannot be analysed is deferred and does not hide a violation recognised by another group.")
+    "a group that cannot be analysed is deferred and does not hide a violation recognised by another group. "
+    "Reductions that are the identity on the domain box (`hsn & 63` for HSN in 0..63) are dropped by the same interval evaluation, "
+    "the division identities a - c*(a div c) == a mod c etc. are part of the normal form, operands of sizeof are not uses of the "
+    "table. A normal form that differs from the specification term decides nothing by itself: formula (R3), T1R / index (R4, R5) "
+    "are then folded by the checker's own arithmetic on dense witness families inside the domain (every N, every (T2, T3) pair, "
+    "every HSN; 445488 witnesses for the formula) -- a differing witness is reported as the violation, agreement is recorded as "
+    "an open structural proof (evidence: structural_proofs) and raises no alarm; a time component whose normal form differs is "
+    "folded for each of the 2715648 frame numbers (complete). The HSN range check of the constructor, when it is not written as "
+    "comparisons with constants, is decided by folding the constructor for candidates on both sides of 0..63. A frequency getter "
+    "may return a memo of resolve() only under guards on the HoppingParams object and the frame number, every store to the memo "
+    "(read from the source as written) being None or (object, fn, object.resolve(fn)).")
 ASSUMPTIONS = [
     "spec/hopping.json is a faithful transcription of TS 45.002 table 6.2.3 and of the algorithm of clause 6.2.3",
     "NBIN is the number of bits needed to represent N (TS 45.002 6.2.3), so 2^NBIN - 1 == (1 << N.bit_length()) - 1; the mask is "
@@ -49,6 +59,8 @@ ASSUMPTIONS = [
     "(commutativity/associativity, x & (2^k - 1) == x mod 2^k, mod absorption also through the arms of a conditional); the "
     "formula rules enumerate nothing; R7 enumerates witnesses only to refute (a pass of R7 alone proves nothing, the pass rests on "
     "R1-R6), with consteval as a faithful evaluator of the Python subset it accepts and a Mobile Allocation of distinct (Rx, Tx) pairs",
+    "a clause whose structural proof is open (normal forms differ, all witnesses agree) holds on the witnesses only; the "
+    "evidence names it under structural_proofs",
     "firmware: hsn (uint8_t from L1CTL) is assumed to be in 0..63 (the property's domain) and struct gsm_time to satisfy "
     "t1 < 2048, t2 < 26, t3 < 51 (C19.R3 invariant); the list stored as HoppingParams.ma is not mutated after construction",
 ]
@@ -139,7 +151,9 @@ def to_spec_symbols(t, ren):
 
     def is_mask(o):
         vs = variables(o)
-        return o != PNM and bool(vs) and vs <= {N, HSN, MAIO} and not any(y[0] == "idx" for y in G.subterms(o))
+        # a bare HSN / MAIO operand is data that is being masked (`hsn & t1 & 63`), not a mask
+        return o != PNM and bool(vs) and vs <= {N, HSN, MAIO} and (o[0] != "v" or o == N) and \
+            not any(y[0] == "idx" for y in G.subterms(o))
 
     def leaf(x):
         if x[0] == "&" and any(is_mask(o) for o in x[1:]):
@@ -385,7 +399,9 @@ def nbin_mask(n):
 DOMAIN_N = range(1, 65)
 
 
-ALLOWED = {"c", "v", "+", "mod", "^", "idx", "ite", "cmp", "not", "and", "or", "div", "none", "raise"}
+# operators of the specification term, plus plain integer operators that the checker folds exactly (a term using them
+# is either equal to the specification term in normal form or decided on witnesses -- see compare_formula)
+ALLOWED = {"c", "v", "+", "mod", "^", "idx", "ite", "cmp", "not", "and", "or", "div", "none", "raise", "*", "&", "|", "<<", ">>"}
 
 
 def check_vocabulary(t, where):
@@ -428,21 +444,109 @@ def absorb(t):
     return G.renorm(t, leaf, band_pnm)
 
 
-def compare_formula(L, file, func, found, want, names, line, lang):
+def structural_pairs(found, want):
+    """differing sub-term pairs of the two conditional terms compared as decision tables; [] when they agree on every row"""
     pairs = G.table_compare(found, want, band_pnm)
     if pairs:
         p2 = G.table_compare(absorb(found), absorb(want), band_pnm)
         if not p2:
             pairs = []
+    return pairs
+
+
+TERM_NAMES = {FN: "FN", V("T1"): "T1", V("T2"): "T2", V("T3"): "T3", HSN: "HSN", MAIO: "MAIO", N: "N", P: "P", MA: "MA", RN: "RN"}
+TERM_PARAMS = ["FN", "T1", "T2", "T3", "HSN", "MAIO", "N", "P", "MA", "RN"]
+
+
+def formula_witnesses():
+    """(HSN, MAIO, N, FN) inside the property's domain: cyclic hopping with every N and every MAIO around the multiples
+    of N and the ends of the hyperframe; pseudo-random hopping with every N and every (T2, T3) pair for three
+    (HSN, T1) combinations, and every HSN with T1 below / at / above 64 for small, power-of-two and the largest N"""
+    for n in DOMAIN_N:
+        for maio in range(64):
+            for fn in sorted({0, 1, n - 1, n, n + 1, 1325, 1326, 2 * 1326 + 5, FN_LAST}):
+                yield 0, maio, n, fn
+    for n in DOMAIN_N:
+        for hsn, t1 in ((1, 0), (42, 101), (63, 2047)):
+            for k in range(1326):
+                yield hsn, (k * 7 + n) % 64, n, t1 * 1326 + k
+    for hsn in range(1, 64):
+        for n in (1, 2, 3, 7, 8, 64):
+            for t1 in (0, 63, 64, 2047):
+                for k in range(0, 1326, 13):
+                    yield hsn, (k + hsn) % 64, n, t1 * 1326 + k
+
+
+def fold_formula(term, rntable, limit=5):
+    """the term folded (checker-side arithmetic on the normal form, 2^NBIN taken from N as R2 demands of the mask) for every
+    witness and compared with MA[MAI] of TS 45.002 6.2.3 computed from the reference table: (witnesses folded,
+    [differing witnesses as text])"""
+    f = G.term_fn(term, TERM_NAMES, TERM_PARAMS)
+    rn = tuple(rntable)
+    mas = {n: tuple(1000 + 3 * i for i in range(n)) for n in DOMAIN_N}
+    k, bad = 0, []
+    for hsn, maio, n, fn in formula_witnesses():
+        k += 1
+        mai, s, _ = ref_select(rntable, hsn, maio, n, fn)
+        ma = mas[n]
+        try:
+            got = f(fn, fn // 1326, fn % 26, fn % 51, hsn, maio, n, nbin_mask(n) + 1, ma, rn)
+        except G._Outside as e:
+            got = str(e)
+        except (ArithmeticError, TypeError, ValueError) as e:
+            raise AnalysisError("hopping term cannot be folded for HSN = %d, MAIO = %d, N = %d, FN = %d: %s" % (hsn, maio, n, fn, e))
+        if got != ma[mai]:
+            bad.append("HSN = %d, MAIO = %d, N = %d, FN = %d (T1 = %d, T2 = %d, T3 = %d): MA[%d] expected, %s selected" % (
+                hsn, maio, n, fn, fn // 1326, fn % 26, fn % 51, mai,
+                "MA[%d]" % ma.index(got) if got in ma else repr(got)[:60]))
+            if len(bad) >= limit:
+                break
+    return k, bad
+
+
+def compare_formula(L, file, func, found, want, names, line, lang, rntable):
+    """R3.  Structural decision: the two conditional terms agree as decision tables over their branch conditions
+    (normal-form leaves) -- this closes the clause for every input.  When the normal forms differ the code may still
+    compute the same function in a shape the rewrites do not know: the term is then folded on the witnesses of
+    formula_witnesses(); a witness on which another channel is selected is a counterexample inside the property's
+    domain (VIOLATION, reported with the differing sub-terms); if every witness agrees the structural comparison is
+    recorded as an open structural proof and raises no alarm."""
+    why = None
+    try:
+        pairs = structural_pairs(found, want)
+    except AnalysisError as e:
+        pairs, why = None, str(e)
     base = "hopping formula: value returned by %s equals the TS 45.002 6.2.3 term %s" % (func, G.show(want, names)[:160])
-    if not pairs:
+    if pairs == []:
         L.ob("C07.R3", file, func, base, G.show(want, names), G.show(found, names), True, line)
         return
-    for a, b in pairs:
-        L.ob("C07.R3", file, func,
-             "hopping formula of %s vs TS 45.002 6.2.3: sub-term `%s` where the specification has `%s`" % (
-                 func, G.show(a, names), G.show(b, names)),
-             G.show(b, names), G.show(a, names), False, line)
+    try:
+        k, bad = fold_formula(found, rntable)
+    except AnalysisError as e:
+        raise AnalysisError("%s: the hopping term is not in the normal form of the specification term (%s) and %s" % (
+            func, why or "; ".join("`%s` where the specification has `%s`" % (G.show(a, names)[:80], G.show(b, names)[:80])
+                                   for a, b in pairs[:2]), e))
+    if bad:
+        for a, b in (pairs or []):
+            L.ob("C07.R3", file, func,
+                 "hopping formula of %s vs TS 45.002 6.2.3: sub-term `%s` where the specification has `%s`" % (
+                     func, G.show(a, names), G.show(b, names)),
+                 G.show(b, names), "%s -- e.g. %s" % (G.show(a, names), bad[0]), False, line)
+        if not pairs:
+            L.ob("C07.R3", file, func, base, G.show(want, names), "%s -- e.g. %s" % (G.show(found, names)[:200], bad[0]), False, line)
+        return
+    L.ob("C07.R3", file, func, base, G.show(want, names),
+         "%s -- selects MA[MAI] of TS 45.002 6.2.3 on all %d witnesses (the normal forms differ: structural proof open)" % (
+             G.show(found, names)[:300], k), True, line)
+
+    def open_proof():
+        if why:
+            raise AnalysisError(why)
+        for a, b in pairs:
+            L.ob("C07.R3", file, func, "sub-term `%s` where the specification has `%s`" % (G.show(a, names), G.show(b, names)),
+                 G.show(b, names), G.show(a, names), False, line)
+    L.structural("C07.R3 %s: decision table of the returned term equals that of the TS 45.002 6.2.3 term" % func, open_proof)
+    L.extra.setdefault("formula_witnesses", {})[func] = k
 
 
 # ------------------------------------------------------------------------------
@@ -664,6 +768,15 @@ def r1_c_table(L, cs, spec):
     for name, fd in tu.functions.items():
         for x in walk(fd):
             if kind(x) == "DeclRefExpr" and x.get("referencedDecl", {}).get("id") == vid:
+                # an operand of sizeof is not evaluated (ARRAY_SIZE(rn_table)): it neither reads nor writes the table
+                cur, unevaluated = x, False
+                while cur is not None and kind(cur) != "FunctionDecl":
+                    cur = tu.parent.get(id(cur))
+                    if cur is not None and kind(cur) == "UnaryExprOrTypeTraitExpr":
+                        unevaluated = True
+                        break
+                if unevaluated:
+                    continue
                 uses += 1
                 chain = []
                 cur = x
@@ -830,7 +943,8 @@ DOMAIN_BOX = {HSN: (0, 63), MAIO: (0, 63), N: (1, 64), P: (2, 128), FN: (0, G.HY
 def settle_py(L, py, rntable):
     """the simulator's term with its conditional subtractions settled and inside the vocabulary of the specification term;
     the formula, T1R, index and return-path rules read it (none of them gives a verdict on a term with opaque parts)"""
-    py.term = prune_unreachable(L, "HoppingParams.resolve", py.term, DOMAIN_BOX, rntable)
+    py.rntable = rntable
+    py.term = G.euclid(prune_unreachable(L, "HoppingParams.resolve", py.term, DOMAIN_BOX, rntable), band_pnm)
     py.term = settle_reductions(L, F_GSM, "HoppingParams.resolve", py.term, py.resolve.lineno, rntable, spec_py()["names"])
     check_vocabulary(py.term, "HoppingParams.resolve")
     return py
@@ -838,7 +952,8 @@ def settle_py(L, py, rntable):
 
 def settle_c(L, cs, rntable):
     """same for the firmware's term"""
-    cs.term = prune_unreachable(L, cs.HOP, cs.term, DOMAIN_BOX, rntable)
+    cs.rntable = rntable
+    cs.term = G.euclid(prune_unreachable(L, cs.HOP, cs.term, DOMAIN_BOX, rntable), band_pnm)
     cs.term = settle_reductions(L, F_RFCH, cs.HOP, cs.term, cs.tu.line(cs.f), rntable, spec_c()["names"])
     check_vocabulary(cs.term, cs.HOP)
     return cs
@@ -847,7 +962,7 @@ def settle_c(L, cs, rntable):
 def r3_py_formula(L, py):
     """R3, simulator: the value returned by resolve() is the TS 45.002 6.2.3 term"""
     sp = spec_py()
-    compare_formula(L, F_GSM, "HoppingParams.resolve", py.term, ("idx", MA, sp["mai"]), sp["names"], py.resolve.lineno, "py")
+    compare_formula(L, F_GSM, "HoppingParams.resolve", py.term, ("idx", MA, sp["mai"]), sp["names"], py.resolve.lineno, "py", py.rntable)
     L.floor("C07.R3", "formula terms compared (Python)", 1, 1)
 
 
@@ -858,7 +973,7 @@ def r3_c_formula(L, cs):
     found = cs.term
     if not any(a == X.cmp_("==", MA, C(0)) for a in G.atoms_of(found)):
         want = ("idx", MA, sc["mai"])
-    compare_formula(L, F_RFCH, cs.HOP, found, want, sc["names"], cs.tu.line(cs.f), "c")
+    compare_formula(L, F_RFCH, cs.HOP, found, want, sc["names"], cs.tu.line(cs.f), "c", cs.rntable)
     L.floor("C07.R3", "formula terms compared (C)", 1, 1)
 
 
@@ -885,33 +1000,112 @@ def r4_decomposition(L, repo):
     G.r1_decomposition(L, repo, rule="C07.R4", hopping_only=True)
 
 
-def r4_t1r(L, file, func, term, T1, line):
-    """R4: T1 enters the RNTABLE index only as T1R = T1 mod 64"""
+INDEX_WITNESS_T1 = (0, 31, 32, 63, 64, 101, 1984, 2047)
+
+
+def fold_index(I, want, rntable, hsns=range(64), limit=3):
+    """the RNTABLE index term folded for every HSN of `hsns`, T1 around the multiples of 32 / 64 and at the end of its
+    range and every (T2, T3) pair: (witnesses, [text of those where it differs from `want`(a term) or leaves 0..113])"""
+    f = G.term_fn(("tuple", I, want if want is not None else C(0)), TERM_NAMES, TERM_PARAMS)
+    rn = tuple(rntable)
+    k, bad = 0, []
+    for hsn in hsns:
+        for t1 in INDEX_WITNESS_T1:
+            for fn in range(t1 * 1326, t1 * 1326 + 1326):
+                k += 1
+                try:
+                    a, b = f(fn, t1, fn % 26, fn % 51, hsn, 0, 1, 2, (0,), rn)
+                except (G._Outside, ArithmeticError, TypeError, ValueError) as e:
+                    raise AnalysisError("RNTABLE index cannot be folded for HSN = %d, FN = %d: %s" % (hsn, fn, e))
+                if (want is not None and a != b) or (want is None and not 0 <= a <= 113):
+                    bad.append("HSN = %d, FN = %d (T1 = %d, T3 = %d): index %s%s" % (
+                        hsn, fn, t1, fn % 51, a, ", specification %s" % b if want is not None else ""))
+                    if len(bad) >= limit:
+                        return k, bad
+    return k, bad
+
+
+def r4_t1r(L, file, func, term, T1, T3, line, rntable):
+    """R4: T1 enters the RNTABLE index only as T1R = T1 mod 64.  Recognised directly when every occurrence of T1 in the
+    index is the operand of `mod 64`; an index written otherwise (e.g. the reduction applied after the xor) is folded
+    on witnesses against (HSN xor (T1 mod 64)) + T3: a differing witness is a violation, agreement leaves the
+    structural clause open without an alarm."""
     idxs = []
     for I in rn_indices(term):
         if I not in idxs:
             idxs.append(I)
     L.floor("C07.R4", "RNTABLE accesses in %s" % func, len(idxs), 1)
+    key = "T1R = T1 mod 64 (`t1 & 63`) is what enters the RNTABLE index"
     for I in idxs:
         uses = sorted({("T1 mod %d" % p[2][1]) if (p is not None and p[0] == "mod" and p[1] == T1 and p[2][0] == "c")
                        else "T1 unreduced" for p in t1_uses(I, T1)})
-        L.require("C07.R4", file, func, "T1R = T1 mod 64 (`t1 & 63`) is what enters the RNTABLE index", ["T1 mod 64"],
-                  uses, line=line)
+        if uses == ["T1 mod 64"]:
+            L.require("C07.R4", file, func, key, ["T1 mod 64"], uses, line=line)
+            continue
+        want = X.add(X.bxor(HSN, X.mod(T1, C(64))), T3)
+        k, bad = fold_index(I, want, rntable)
+        if bad:
+            L.ob("C07.R4", file, func, key, ["T1 mod 64"], "%s -- e.g. %s" % (uses, bad[0]), False, line)
+            continue
+        L.ob("C07.R4", file, func, key, ["T1 mod 64"],
+             "%s -- the index equals (HSN xor (T1 mod 64)) + T3 on all %d witnesses (structural proof open)" % (uses, k), True, line)
+        L.structural("C07.R4 %s: every occurrence of T1 in the RNTABLE index is reduced mod 64" % func,
+                     L.require, "C07.R4", file, func, key, ["T1 mod 64"], uses)
 
 
 def r4_py_t1r(L, py):
-    r4_t1r(L, F_GSM, "HoppingParams.resolve", py.term, G.spec_decomposition(FN)["t1"], py.resolve.lineno)
+    d = G.spec_decomposition(FN)
+    r4_t1r(L, F_GSM, "HoppingParams.resolve", py.term, d["t1"], d["t3"], py.resolve.lineno, py.rntable)
 
 
 def r4_c_t1r(L, cs):
-    r4_t1r(L, F_RFCH, cs.HOP, cs.term, V("T1"), cs.tu.line(cs.f))
+    r4_t1r(L, F_RFCH, cs.HOP, cs.term, V("T1"), V("T3"), cs.tu.line(cs.f), cs.rntable)
 
 
-def _index_bound(L, file, func, term, size, rng, line, note):
+def _index_bound(L, file, func, term, size, rng, line, note, rntable):
+    """R5: interval enclosure of the index (closes the clause for every input); an enclosure that is too wide decides
+    nothing by itself (operands may be correlated): the index is then folded on the witnesses of fold_index and only
+    a witness that leaves the table is a violation"""
+    key = "RNTABLE index (HSN xor T1R) + T3 stays inside the table (<= 63 + 50 < 114)"
     for I in rn_indices(term):
         v = G.interval(I, rng)
-        L.ob("C07.R5", file, func, "RNTABLE index (HSN xor T1R) + T3 stays inside the table (<= 63 + 50 < 114)",
-             "[0, %d]" % (size - 1), "%s (%s)" % (G.ivtxt(v), note), v[0] >= 0 and v[1] <= size - 1 and v[1] <= 113, line)
+        if v[0] >= 0 and v[1] <= size - 1 and v[1] <= 113:
+            L.ob("C07.R5", file, func, key, "[0, %d]" % (size - 1), "%s (%s)" % (G.ivtxt(v), note), True, line)
+            continue
+        if size < 114:
+            L.ob("C07.R5", file, func, key, "[0, %d]" % (size - 1), "%s (%s); the table holds %d entries" % (G.ivtxt(v), note, size),
+                 False, line)
+            continue
+        hs = rng.get(HSN, (0, 63))
+        hsns = range(int(max(hs[0], -64)), int(min(hs[1], 255)) + 1) if hs[0] > -G.INF and hs[1] < G.INF else range(-64, 256)
+        k, bad = fold_index(I, None, rntable, hsns)
+        if bad:
+            L.ob("C07.R5", file, func, key, "[0, %d]" % (size - 1), "%s (%s) -- e.g. %s" % (G.ivtxt(v), note, bad[0]), False, line)
+            continue
+        L.ob("C07.R5", file, func, key, "[0, %d]" % (size - 1),
+             "inside 0..113 on all %d witnesses (%s; interval enclosure %s too wide: structural proof open)" % (k, note, G.ivtxt(v)),
+             True, line)
+        L.structural("C07.R5 %s: interval enclosure of the RNTABLE index" % func, L.ob, "C07.R5", file, func, key,
+                     "[0, %d]" % (size - 1), G.ivtxt(v), False)
+
+
+def fold_hsn_guard(L, py):
+    """(candidates folded, [(hsn, stored value) accepted by the constructor and stored outside 0..63])"""
+    hp, mp_, ap = py.init_params
+    k, bad = 0, []
+    for h in list(range(-70, 300)) + [1 << 16, -(1 << 16), (1 << 32) + 5]:
+        ev = Ev(py.repo, py.mod, env={hp: h, mp_: 0, ap: [(0, 0), (1, 1), (2, 2)]}, self_cls=py.ci)
+        k += 1
+        try:
+            ev.run_block(py.init.body)
+        except Raised:
+            continue
+        except (Unknown, TypeError, ValueError, ArithmeticError, LookupError, AttributeError, RecursionError) as e:
+            raise AnalysisError("HoppingParams.__init__ cannot be folded for hsn = %d (%s); the HSN range check is unclassifiable" % (h, e))
+        v = ev.env.get(py.attr["hsn"])
+        if isinstance(v, bool) or not isinstance(v, int) or not 0 <= v <= 63:
+            bad.append((h, v))
+    return k, bad
 
 
 def r5_py_bound(L, py, ptab):
@@ -920,19 +1114,35 @@ def r5_py_bound(L, py, ptab):
     iv = (-G.INF, G.INF)
     for c, pol in py.init_conds:
         iv = G.refine(c, pol, hv, iv)
-    L.ob("C07.R5", F_GSM, "HoppingParams.__init__", "HSN is range-checked (0..63) on the only path that stores self.hsn",
-         "[0, 63]", "%s from guards %s" % (G.ivtxt(iv), [G.show(G.truth(c if p else ("not", c))) for c, p in py.init_conds]),
-         hv[0] == "v" and iv[0] >= 0 and iv[1] <= 63, py.init.lineno)
+    key = "HSN is range-checked (0..63) on the only path that stores self.hsn"
+    guards = "%s from guards %s" % (G.ivtxt(iv), [G.show(G.truth(c if p else ("not", c))) for c, p in py.init_conds])
+    if hv[0] == "v" and iv[0] >= 0 and iv[1] <= 63:
+        L.ob("C07.R5", F_GSM, "HoppingParams.__init__", key, "[0, 63]", guards, True, py.init.lineno)
+    else:
+        # the guard is not written as comparisons of the parameter with constants: the constructor is folded for
+        # HSN candidates on both sides of the range; a candidate it accepts and stores outside 0..63 is a violation
+        k, bad = fold_hsn_guard(L, py)
+        if bad:
+            L.ob("C07.R5", F_GSM, "HoppingParams.__init__", key, "[0, 63]",
+                 "%s -- e.g. HoppingParams(hsn = %d, ...) is accepted and stores %s = %r" % (guards, bad[0][0], py.attr["hsn"], bad[0][1]),
+                 False, py.init.lineno)
+        else:
+            L.ob("C07.R5", F_GSM, "HoppingParams.__init__", key, "[0, 63]",
+                 "every one of %d candidates in -70..299 and at +-2^16, 2^32 + 5 is rejected or stored inside 0..63 (guard shape not "
+                 "recognised: structural proof open)" % k, True, py.init.lineno)
+            L.structural("C07.R5 HoppingParams.__init__: interval of the stored HSN from the constructor's guards", L.ob,
+                         "C07.R5", F_GSM, "HoppingParams.__init__", key, "[0, 63]", guards, False)
+            iv = (0, 63)
     hs = (max(iv[0], 0), min(iv[1], 63)) if iv[0] >= 0 and iv[1] <= 63 else iv
     _index_bound(L, F_GSM, "HoppingParams.resolve", py.term, len(ptab), {HSN: hs}, py.resolve.lineno,
-                 "HSN range from the constructor guard")
+                 "HSN range from the constructor guard", py.rntable)
 
 
 def r5_c_bound(L, cs, ctab):
     init, cext = ctab
     _index_bound(L, F_RFCH, cs.HOP, cs.term, min(cext or 0, len(init)),
                  {HSN: (0, 63), V("T1"): (0, 2047), V("T2"): (0, 25), V("T3"): (0, 50)}, cs.tu.line(cs.f),
-                 "HSN in 0..63 (property domain), gsm_time invariant")
+                 "HSN in 0..63 (property domain), gsm_time invariant", cs.rntable)
 
 
 def r6_py_returns(L, py):
@@ -943,6 +1153,96 @@ def r6_py_returns(L, py):
          py.resolve.lineno)
     # one leaf when both hopping modes share the exit that adds MAIO, two when each returns on its own
     L.floor("C07.R6", "return paths of resolve()", len(lv), 1)
+
+
+def _returned_leaves(t, conds=()):
+    """(path conditions, leaf) of a returned term: through conditionals, also under a constant projection"""
+    if t[0] == "ite":
+        for x in _returned_leaves(t[2], conds + ((t[1], True),)):
+            yield x
+        for x in _returned_leaves(t[3], conds + ((t[1], False),)):
+            yield x
+    elif t[0] == "idx" and t[2][0] == "c" and t[1][0] == "ite":
+        for c, leaf in _returned_leaves(t[1], conds):
+            yield c, ("idx", leaf, t[2])
+    else:
+        yield conds, t
+
+
+def _is_resolve(c):
+    return c[0] == "call" and c[1].endswith(".resolve")
+
+
+def _canon_resolve(c):
+    """`fh = self.fh; fh.resolve(fn)` (receiver read through a local) is the same call as `self.fh.resolve(fn)`"""
+    if c[1] == ".resolve" and len(c) > 2 and c[2][0] == "v":
+        return ("call", c[2][1] + ".resolve") + c[3:]
+    return c
+
+
+def _memo_check(L, repo, q, leaf, conds, fnp, line):
+    """a value the getter returns without calling resolve(): accepted only as a memo of it -- read from one attribute
+    `self.A[j]` under the path conditions `self.A[a] is self.fh` and `self.A[b] == fn`, every store to A in the toolkit
+    being None or a tuple whose element j is (element a).resolve(element b).  Anything else is unclassifiable."""
+    chain, base = [], leaf
+    while base[0] == "idx" and base[2][0] == "c":
+        chain.append(base[2][1])
+        base = base[1]
+    if base[0] != "v" or not base[1].startswith("self.") or not chain:
+        raise AnalysisError("%s returns `%s` on a hopping path without calling resolve(); unclassifiable" % (q, G.show(leaf)[:80]))
+    j = chain[-1]
+    pos = set()
+    for c, pol in conds:
+        if pol:
+            pos |= set(c[1:]) if c[0] == "and" else {c}
+    a = [x for x in pos if x[0] == "cmp" and x[1] == "is" and V("self.fh") in x[2:] and any(
+        y[0] == "idx" and y[1] == base and y[2][0] == "c" for y in x[2:])]
+    b = [x for x in pos if x[0] == "cmp" and x[1] == "==" and V(fnp) in x[2:] and any(
+        y[0] == "idx" and y[1] == base and y[2][0] == "c" for y in x[2:])]
+    key = "%s returns the memo `%s` only for the HoppingParams object in use and the frame number it was given" % (q, G.show(leaf))
+    if len(a) != 1 or len(b) != 1:
+        L.ob("C07.R6", F_TRX, q, key, "guards `%s[a] is self.fh` and `%s[b] == %s`" % (base[1], base[1], fnp),
+             sorted(G.show(x) for x in pos), False, line)
+        return
+    ia = [y for y in a[0][2:] if y[0] == "idx"][0][2][1]
+    ib = [y for y in b[0][2:] if y[0] == "idx"][0][2][1]
+    L.ob("C07.R6", F_TRX, q, key, "guards on the object and the frame number", sorted(G.show(x) for x in (a[0], b[0])), True, line)
+    name = base[1].split(".", 1)[1]
+    nw = 0
+    for m in repo.tk_modules():
+        # the writers are read from the source as written: the loader's normaliser may fold a memoising helper away
+        try:
+            raw = ast.parse(m.src)
+        except SyntaxError as e:
+            raise AnalysisError("cannot parse %s: %s" % (m.rel, e))
+        set_parents(raw)
+        for node, k in attr_accesses(raw, name):
+            if k == "load":
+                continue
+            wq = qualname(node)
+            par = getattr(node, "_parent", None)
+            wkey = "memo `%s` is written only as None or (object, frame number, object.resolve(frame number))" % base[1]
+            if k != "store" or not isinstance(par, ast.Assign):
+                L.ob("C07.R6", m.rel, wq, wkey, "plain assignment", k, False, node.lineno)
+                continue
+            if isinstance(par.value, ast.Constant) and par.value.value is None:
+                continue
+            fd, cd = enclosing_func(node), enclosing_class(node)
+            ci = repo.cls(m, cd.name) if cd is not None else None
+            if not isinstance(fd, ast.FunctionDef):
+                raise AnalysisError("store to %s outside a function; unclassifiable" % base[1])
+            sym = G.PySym(repo, m, ci)
+            for _c, o in G.leaves(sym.run(fd)):
+                env = o[2] if o[0] == "ret" else o[1] if o[0] == "fall" else {}
+                v = env.get(base[1], base)
+                if v == base:
+                    continue
+                nw += 1
+                ok = v[0] == "tuple" and len(v) - 1 > max(ia, ib, j) and _is_resolve(v[j + 1]) and v[ia + 1][0] == "v" and \
+                    _canon_resolve(v[j + 1]) == ("call", v[ia + 1][1] + ".resolve", v[ib + 1])
+                L.ob("C07.R6", m.rel, wq, wkey, "(x, n, x.resolve(n)) at positions (%d, %d, %d)" % (ia, ib, j), G.show(v)[:160], ok,
+                     node.lineno)
+    L.floor("C07.R6", "stores of the memo %s" % base[1], nw, 1)
 
 
 def r6_getters(L, repo):
@@ -958,7 +1258,7 @@ def r6_getters(L, repo):
             raise AnalysisError("%s: expected (self, fn)" % q)
         sym = G.PySym(repo, mod, ci)
         res = sym.result(sym.run(fd))
-        calls = [x for x in G.subterms(res) if x[0] == "call" and x[1].endswith(".resolve")]
+        calls = [_canon_resolve(x) for x in G.subterms(res) if _is_resolve(x)]
         if not calls:
             L.ob("C07.R6", F_TRX, q, "%s resolves the hopping frequency through fh.resolve()" % name, ">= 1 call", G.show(res)[:120],
                  False, fd.lineno)
@@ -966,6 +1266,16 @@ def r6_getters(L, repo):
             n += 1
             L.ob("C07.R6", F_TRX, q, "%s calls self.fh.resolve() with the frame number it was given" % name,
                  "self.fh.resolve(%s)" % ps[1], G.show(c), c == ("call", "self.fh.resolve", V(ps[1])), fd.lineno)
+        # what is returned while hopping is configured without calling resolve() (a memo) must be justified
+        nofh = X.cmp_("==", V("self.fh"), V("None"))
+        for conds, leaf in _returned_leaves(res):
+            if any(_is_resolve(x) for x in G.subterms(leaf)):
+                continue
+            if any((c == nofh and pol) or (c[0] == "and" and pol and nofh in c[1:]) for c, pol in conds):
+                continue
+            if not calls:
+                continue            # already reported
+            _memo_check(L, repo, q, leaf, conds, ps[1], fd.lineno)
     L.floor("C07.R6", "resolve() call sites in the frequency getters", n, 2)
     for m in repo.tk_modules():
         for node, k in attr_accesses(m.tree, "fh"):
